@@ -93,9 +93,12 @@ class Message:
 
         # Parse headers into key/value pairs paying attention
         # to continuation lines.
+        field_count = 0
         while lines:
-            if len(headers) >= self.limit_request_fields:
+            # count every field, including those header_map="drop" discards
+            if field_count >= self.limit_request_fields:
                 raise LimitRequestHeaders("limit request headers fields")
+            field_count += 1
 
             # Parse initial header name: value pair.
             curr = lines.pop(0)
